@@ -248,25 +248,29 @@ func c09Run(c c09Case, ce *c09Env, rec *vh.Recorder) error {
 	stop := make(chan struct{})
 	if c.Ending == "hostkill" {
 		go func() {
-			deadline := time.Now().Add(10 * time.Second)
-			for time.Now().Before(deadline) {
+			// keeps trying until the run is over (on a loaded machine the program may start many seconds after this)
+			for {
 				select {
 				case <-stop:
 					return
 				default:
 				}
-				// the main program is the tagged process that is not inside a fork block: the first one created.
-				pids := taggedPids(tag)
-				min := 0
-				for p := range pids {
-					if min == 0 || p < min {
-						min = p
+				// the main program is the tagged process whose parent does not carry the tag (its children's parent does)
+				infos := taggedInfo(tag)
+				tagged := map[int]bool{}
+				for _, p := range infos {
+					tagged[p.Pid] = true
+				}
+				main := 0
+				for _, p := range infos {
+					if !tagged[p.PPid] && p.State != "Z" && (main == 0 || p.Pid < main) {
+						main = p.Pid
 					}
 				}
-				if min != 0 {
+				if main != 0 {
 					// wait until it really executes the probe (not the pre-exec launcher): cmdline carries the tag only after exec
 					time.Sleep(3 * time.Millisecond)
-					syscall.Kill(min, syscall.SIGKILL)
+					syscall.Kill(main, syscall.SIGKILL)
 					return
 				}
 				time.Sleep(time.Millisecond)
